@@ -4,6 +4,7 @@
 -/
 import Tranp.Lemmas.DI
 import Tranp.Lemmas.DIState
+import Tranp.Lemmas.DIMethods
 import Tranp.Generated.DIWiring
 import Tranp.Generated.DIState
 
@@ -803,5 +804,62 @@ example :
     (genCombineLazy a b).definitions.get? 0 = some (.named 2 f15) := by decide
 
 end DIStateTie
+
+/-! ### the registry methods and `resolve`, generated from the statements of di.py -/
+
+section DIMethodsTie
+open Tranp.Generated.DIMethods
+
+/-- The model functions ARE the method bodies of di.py. `Generated/DIMethods.lean` holds the bodies of
+    `bind / unbind / rebind / can_resolve / resolve / _binded` of both classes and of every helper they call
+    (`_acceptable_symbol`, `__find_symbol`, `__inner_binded`, `__register`, `__unregister`, `__can_resolve`, `__symbolize`,
+    `__bind_proxy`), translated statement by statement from the ast into `do` blocks (dict item access / store / `del` with
+    KeyError, `raise`, `is None` guards, virtual `self.` calls resolved by the class of the receiver, `super()`). For every
+    container, counter, symbol reference and factory they compute exactly what the hand-written `Cont.bind`, `Cont.unbind`,
+    `Cont.rebind`, `Cont.canResolve`, `Cont.binded` and `resolveF` (with `self.invoke` = `invokeF`) compute — so `refine`,
+    `singleton`, `rebind_fresh`, `unknown`, `lazy_materialise` … are statements about these translated statements.
+    Not translated (hand-written, tied by the stream): `invoke` and its three introspection helpers. -/
+theorem methods_generated (fuel : Nat) (c : Cont) (nx : Nat) (r : SymRef) (f : Factory) :
+    PyM.run (if c.lazy then gen_LazyDI_bind c.lazy r f else gen_DI_bind c.lazy r f) c nx = ((c.bind r f).1, nx, (c.bind r f).2) ∧
+    PyM.run (if c.lazy then gen_LazyDI_unbind c.lazy r else gen_DI_unbind c.lazy r) c nx = (c.unbind r, nx, .ok ()) ∧
+    PyM.run (gen_DI_rebind c.lazy r f) c nx = ((c.rebind r f).1, nx, (c.rebind r f).2) ∧
+    PyM.run (if c.lazy then gen_LazyDI_can_resolve c.lazy r else gen_DI_can_resolve c.lazy r) c nx = (c, nx, .ok (c.canResolve r)) ∧
+    PyM.run (if c.lazy then gen_LazyDI__binded c.lazy r else gen_DI__binded c.lazy r) c nx = (c, nx, .ok (c.binded r.accept)) ∧
+    PyM.run (if c.lazy then gen_LazyDI_resolve c.lazy (invOf (resolveF fuel)) r else gen_DI_resolve c.lazy (invOf (resolveF fuel)) r) c nx
+      = resolveF (fuel + 1) c nx r := by
+  cases hl : c.lazy
+  · refine ⟨?_, ?_, ?_, ?_, ?_, ?_⟩
+    · simp [PyM.run, gen_bind_di, Cont.bind, hl]
+    · simp [PyM.run, gen_unbind_di, Cont.unbind, hl]
+    · have := gen_rebind r f c nx
+      rw [hl] at this
+      simp [PyM.run, this]
+    · simp [PyM.run, gen_can_di, Cont.canResolve, hl]
+    · simp [PyM.run, gen_binded_di, Cont.binded, Cont.innerBinded, hl]
+    · simp only [Bool.false_eq_true, if_false]
+      rw [gen_resolve_di]
+      simp [resolveF, hl]
+  · refine ⟨?_, ?_, ?_, ?_, ?_, ?_⟩
+    · simp [PyM.run, gen_bind_lazy, Cont.bind, hl]
+    · simp [PyM.run, gen_unbind_lazy, Cont.unbind, hl]
+    · have := gen_rebind r f c nx
+      rw [hl] at this
+      simp [PyM.run, this]
+    · simp [PyM.run, gen_can_lazy, Cont.canResolve, hl]
+    · simp [PyM.run, gen_binded_lazy, Cont.binded, symbolize, hl]
+    · simp only [if_true]
+      rw [gen_resolve_lazy _ _ _ _ _ hl]
+      simp [resolveF, hl]
+
+/-- non-vacuity: the generated `LazyDI.resolve` on a by-name definition materialises it, calls the factory once and stores
+    the instance; a second run returns the stored instance without a call -/
+example :
+    let c : Cont := { lazy := true, definitions := ⟨[(0, .named 1 f0)]⟩ }
+    let r1 := PyM.run (gen_LazyDI_resolve true (invOf (resolveF 1)) s0) c 0
+    let r2 := PyM.run (gen_LazyDI_resolve true (invOf (resolveF 1)) s0) r1.1 r1.2.1
+    outObj r1.2.2 = .obj ⟨0, 0, []⟩ ∧ r1.2.1 = 1 ∧ r1.1.injectors.get? 0 = some f0 ∧
+    r2.1 = r1.1 ∧ r2.2.1 = 1 ∧ outObj r2.2.2 = .obj ⟨0, 0, []⟩ := by decide
+
+end DIMethodsTie
 
 end Tranp.C19
